@@ -273,6 +273,7 @@ CHECKS = {
         legs=[
             dict(name="pure", run="^TestPure$", quick=5000, thorough=50000, shards=8),
             dict(name="live", run="^TestLive$", quick=1000, thorough=10000, shards=2),
+            dict(name="liveops", run="^TestLiveOps$", quick=150, thorough=1500, shards=8, quick_shards=4),
             dict(name="fuzzpaths", run="^$", fuzz="^FuzzPaths$", fuzztime="45s", tiers=("thorough",), timeout_thorough=240),
         ],
     ),
